@@ -173,7 +173,7 @@ def screen_one(m):
         env.pop("YAML_PYYAML_VERIF", None)
         try:
             r = subprocess.run(["/venv/bin/python", "-m", "pytest", "-q", "-x", "-p", "no:cacheprovider"], cwd=d, env=env,
-                               stdout=subprocess.PIPE, stderr=subprocess.STDOUT, timeout=1200, text=True)
+                               stdout=subprocess.PIPE, stderr=subprocess.STDOUT, timeout=240, text=True)
             tail = r.stdout.strip().splitlines()[-1:] or [""]
             ok = r.returncode == 0 and " passed" in tail[0] and "failed" not in tail[0] and "error" not in tail[0]
         except subprocess.TimeoutExpired:
